@@ -862,11 +862,12 @@ static void part_b_single(void) {
 }
 
 /* cross-field: reduced alphabet per field {absent, in-range a < b, out-of-range}; extender configurations are
- * self-consistent (first <= last) and every in-range first time lies before every in-range last time */
+ * self-consistent (first <= last); across endpoints the in-range first time 1550000000 lies after the in-range last time 1500000000
+ * (a lagging extender), so an order-dependent cross-field rule would show */
 static const int64_t X_LEVEL[4]  = {-1, 5, 12, 21};
 static const int64_t X_PERIOD[4] = {-1, 400, 1000, 99};
 static const int64_t X_REQS[4]   = {-1, 8, 256, 16001};
-static const int64_t X_FIRST[4]  = {-1, 1200000000, 1300000000, CAL_BEGIN - 1};
+static const int64_t X_FIRST[4]  = {-1, 1200000000, 1550000000, CAL_BEGIN - 1};
 static const int64_t X_LAST[4]   = {-1, 1500000000, 1600000000, CAL_BEGIN - 1};
 
 static int cross_conf(int kind, int code, int reduced, conf_t *c) {
